@@ -217,6 +217,7 @@ type r13State struct {
 	CID    string   `json:"cid"`
 	CIDNeg bool     `json:"cidneg"`
 	RRC    bool     `json:"rrc"`
+	Estab  bool     `json:"estab"`
 }
 
 func r13Snapshot(c *Conn) r13State {
@@ -256,6 +257,7 @@ func r13Snapshot(c *Conn) r13State {
 	s.CID = vHex(st.LocalConnectionIDForInboundRecords())
 	s.CIDNeg = st.CID.Negotiated
 	s.RRC = st.RRCNegotiated
+	s.Estab = c.handshakeEstablished != nil && c.isHandshakeCompletedSuccessfully()
 
 	return s
 }
@@ -351,7 +353,7 @@ func r13Open(sender *Conn, raw []byte, cidLen int) (r13Opened, bool) {
 // ---------------------------------------------------------------- simulation
 
 type r13Op struct {
-	Op  string `json:"op"` // arrive | cid | install | remote | drain
+	Op  string `json:"op"` // arrive | cid | install | remote | drain | estab
 	E   int    `json:"e,omitempty"`
 	Hex string `json:"hex,omitempty"` // arrive: the datagram; cid: the connection id expected on inbound records
 	Neg bool   `json:"neg,omitempty"` // cid: connection_id extension negotiated
@@ -545,6 +547,9 @@ func (s *r13Sim) deliver(to string, data []byte, tag string, auth, pl int) *r13S
 	}
 	for _, e := range fresh {
 		step.Ops = append(step.Ops, r13Op{Op: "install", E: e}, r13Op{Op: "remote", E: e}, r13Op{Op: "drain"})
+	}
+	if st.Estab && !sd.last.Estab {
+		step.Ops = append(step.Ops, r13Op{Op: "estab"})
 	}
 	obs := r13Obs{Delivered: []string{}, Alerts: [][2]int{}, ErrText: []string{}, Closed: st.Closed}
 	sd.rd.mu.Lock()
@@ -1113,6 +1118,9 @@ func r13RunMutation(t *testing.T, v r13Variant, rng *vRand, pl r13Plan) []r13Cas
 			inject([]byte{26, 254, 253, 0, 0, 0, 0, 0, 0, 3, 232, 0, 2, 0, 0}, "plain:ack-epoch0", 0, -1)
 			inject([]byte{23, 254, 253, 0, 0, 0, 0, 0, 0, 3, 233, 0, 1, 65}, "plain:appdata-epoch0", 0, -1)
 			inject([]byte{21, 254, 253, 0, 0, 0, 0, 0, 0, 3, 234, 0, 1, 65}, "plain:alert-short-epoch0", 0, -1)
+			mseq := rst().HandshakeRecvSequence
+			inject(r13PlainRecord(22, 1003, []byte{24, 0, 0, 1, byte(mseq >> 8), byte(mseq), 0, 0, 0, 0, 0, 1, 0}), "plain:keyupdate-epoch0", 0, -1)
+			inject(r13PlainRecord(22, 1004, []byte{1, 0, 0, 0, 0, 0, 0, 0, 0, 0, 0, 0}), "plain:clienthello-epoch0", 0, -1)
 		}
 	}
 	if !closed() {
